@@ -48,6 +48,14 @@ func obsNorm(p any) any {
 			out[i] = obsNorm(e)
 		}
 		return []any{v[0], out}
+	case "hash":
+		ps := v[2].([]any)
+		out := make([]any, len(ps))
+		for i, p := range ps {
+			kv := p.([]any)
+			out[i] = []any{obsNorm(kv[0]), obsNorm(kv[1])}
+		}
+		return []any{v[0], v[1], out}
 	}
 	return p
 }
@@ -113,7 +121,7 @@ func init() {
 	register("sem", "C02/C03: core-language programs vs the reference semantics", func(args []string) int {
 		var slices string
 		c := commonFlags("sem", args, func(fs *flag.FlagSet) {
-			fs.StringVar(&slices, "slices", "shapes,control,loops,calls,data,scoping,mixed", "comma separated slices")
+			fs.StringVar(&slices, "slices", "shapes,control,loops,calls,data,heap,scoping,mixed", "comma separated slices")
 		})
 		w := newWriter(c.out)
 		defer w.close()
@@ -199,6 +207,9 @@ func init() {
 				continue
 			}
 			wt, ok := semSlices[sl]
+			if sl == "heap" {
+				ok = true
+			}
 			if !ok {
 				fatal("unknown slice %s", sl)
 			}
@@ -208,7 +219,12 @@ func init() {
 					continue
 				}
 				r := newRng(c.seed, uint64(idx)*7+uint64(len(sl)))
-				prog := genProgram(r, wt, 2+r.intn(2))
+				var prog []node
+				if sl == "heap" {
+					prog = genHeapProgram(r)
+				} else {
+					prog = genProgram(r, wt, 2+r.intn(2))
+				}
 				var lay *layout
 				if r.intn(3) == 0 {
 					lay = &layout{r: newRng(c.seed, uint64(idx)+999)}
